@@ -98,6 +98,12 @@ def replay_file(prop, path):
         out.update({"clause": v.clause, "culprit": v.culprit, "culprit_kind": v.culprit_kind, "detail": v.detail})
     print("REPLAY " + json.dumps(out, sort_keys=True, default=str))
     if v is not None:
+        from . import findings
+
+        e = findings.find(findings.load(), {"spec": spec, "violation": v.to_json()})
+        if e is not None:
+            print(f"KNOWN-FINDING: property={prop} {e['id']} {e.get('what', '')} [clause={v.clause} replay={path}]")
+            return 0
         print(f"VIOLATION property={prop} replay={path}")
         return 1
     return 0
